@@ -96,7 +96,12 @@ LEVEL_TEXT = ("Lean 4 theorems over an executable binary32-exact model of spread
               "callback sequence, exit reason, loop variables) with theorems for every trace (termination within the step limit and "
               "callback bounds, exit at the first iteration without wirelength, the recurrences and their closed forms, soundness of "
               "the KF-C06-1 numeric box, legacy witness on the pre-fix stop test); tied to the code per end-to-end case by the "
-              "callback sequence (hook-free) and, with hook H5, by a bit-for-bit replay of the logged per-iteration floats")
+              "callback sequence (hook-free) and, with hook H5, by a bit-for-bit replay of the logged per-iteration floats.  One "
+              "generated end-to-end case in three calls placeGlobal on a Circuit object with a past (common/past.hpp: built in a perturbed "
+              "state — rows elsewhere, obstructions moved, flags/sizes/orientations/nets different, one class at a time for two thirds —, "
+              "computeRows/computePlacementArea/hpwl/rowHeight/check called, restored through only the needed setters; half of these "
+              "circuits have the rows setupRows produces and are restored through setupRows): the containment oracle is about the "
+              "circuit's rows, so rows or obstructions remembered inside the object from before a setter are exposed; the failure input carries the past")
 LEVEL_NOTE = ("Partial w.r.t. single precision: the spreading step is proved in binary32 (finite values), everything else is over Rat; "
               "the loop theorems are conditional on the oracle trace (they "
               "do not bound the float solves). Trusted: Lean kernel, the hand-written model's tie to the code "
